@@ -287,19 +287,24 @@ CLAIMED["C19"] = {
 }
 
 CLAIMED["C01"] = {
-    "text": "PROVED TIER (RDH level): Theorem C01_rdh_tier -- for EVERY link description of the producer-shaped grammar Spec/Grammar.v (any number of "
-            "heartbeat frames and pages, any orbits / bunch crossings / trigger types / detector-field status bits / packet counters / payload sizes "
-            "within the documented ranges; consecutive heartbeat frames in different orbits) and any placement of its packets in the input, `check "
-            "sanity` and `check all` without a target draw no message; by induction over heartbeat frames and pages with a latch invariant for the "
-            "sanity validator and the invariant RInv (expected page counter, learnt increment, last RDH) for the running validator. The ITS-payload "
-            "and stave tiers of the statement are NOT composed into one proof: they are decided by the correspondence (all five modes of the rebuilt "
-            "binary, the real LinkValidator and the whole-run model must be silent on every generated stream) and rest on the local acceptance "
-            "theorems of C09 (classification), C11 (word sanity iff), C12 (framing) and C13 (lane / frame rules iff). The generator is tied to the "
-            "Coq grammar on every run: every generated link's RDH bytes must equal render_link of its description with wf_link_rdh = true.",
-    "note": "Partial proof, stated as such: category `proof` applies to the RDH tier; for the payload tiers this check is a differential / "
-            "exploration check over the grammar generator. Trusted: Coq kernel; gen translator; extraction + driver; harness; binary; the Python "
-            "generator's payload level as the reading of the protocol documentation.",
-    "technique": "Coq proof (grammar -> validator invariants by induction) for the RDH tier + generator/grammar identity check + five-mode silence of binary, validator and model on generated conforming streams",
+    "text": "PROVED TIERS: (1) RDH level -- Theorem C01_rdh_tier: for EVERY link description of the producer-shaped grammar Spec/Grammar.v (any number of "
+            "heartbeat frames and pages, any orbits / bunch crossings / trigger types / detector-field status bits / packet counters / payload sizes within "
+            "the documented ranges; consecutive heartbeat frames in different orbits) and any placement of its packets in the input, `check sanity` and "
+            "`check all` without a target report nothing. (2) ITS level -- Theorem C01_its_tier: for EVERY link whose pages carry payloads of the word-level "
+            "producer grammar Spec/GrammarIts.v (IHW; trigger packets = TDH, data words of active lanes, TDT; no-data TDHs; packets continued over ANY number "
+            "of pages through TDT(packet_done=0) / IHW / TDH(continuation); DDW0 on the stop page; data formats 0 and 2; 0..15 bytes of padding; words given by "
+            "their DOCUMENTED bit layout, not by the code's accessors) `check sanity its` and `check all its` report nothing: per-word silent-step lemmas over "
+            "the packet-validator model, induction over items, pages, heartbeat frames and the link, composed with the RDH tier and the payload-cutting "
+            "theorems of C12. C01_membership_test_sound + C01_its_tier_checked: an executable membership test of that grammar (extracted, run on EVERY generated "
+            "conforming link in every run: all are members, and rendering them gives the generated bytes back) implies the hypotheses of the theorem. "
+            "NOT proved: the stave tier (`check all its-stave`; decided by correspondence and C13's local theorems) and calibration data words. The tie to the "
+            "code: regenerated constants; the whole-run model and the rebuilt binary and the real validator are all silent, in all five modes with mute / -E "
+            "options, on generated conforming streams (1..12 links, all barrels, both formats, continuations over 2..5 pages, no-data runs, PhT and internal "
+            "triggers, stave-level ALPIDE content).",
+    "note": "Partial proof, stated as such: category `proof` applies to the RDH and ITS tiers; for the stave tier and for CDWs this check is a differential check "
+            "over the grammar generator. Trusted: Coq kernel; gen translator; extraction + driver; harness; binary; our reading of the protocol documentation "
+            "(Spec/Grammar.v, Spec/GrammarIts.v, Spec/WordLayout.v).",
+    "technique": "Coq proof (producer grammar -> validator invariants by induction: RDH tier and ITS word-level tier; sound executable membership test run on every generated link) + five-mode silence of binary, validator and model on generated conforming streams",
     "design_ref": "DESIGN.md section 8, C01",
 }
 
